@@ -26,6 +26,51 @@ func Run(tier string) int {
 		budget = 14 * time.Minute
 	}
 	regexes, rejected := grammar.Enumerate(size)
+	wordFamily := 0
+	// repetition and alternation nested two levels deeper over a two-letter alphabet
+	tinySize, tinyFamily := 6, 0
+	if tier == "thorough" {
+		tinySize = 7
+	}
+	{
+		seen := map[string]bool{}
+		for _, r := range regexes {
+			seen[r] = true
+		}
+		tiny, _ := ref.TinyRegexGrammar.Enumerate(tinySize)
+		for _, r := range tiny {
+			if !seen[r] {
+				regexes = append(regexes, r)
+				tinyFamily++
+			}
+		}
+	}
+	// literal words in a literal context: head(?:w1|w2)tail, the everyday shape "GET (?:/a|/b) HTTP"
+	// which the size-bounded grammar does not reach (ten AST nodes)
+	{
+		words := []string{"a", "b", "aa", "ab", "ba", "bb", "aba", "bab"}
+		seen := map[string]bool{}
+		for _, r := range regexes {
+			seen[r] = true
+		}
+		for _, head := range []string{"", "a", "ab", "A"} {
+			for _, w1 := range words {
+				for _, w2 := range words {
+					for _, tail := range []string{"", "a", "b"} {
+						if len(head)+max(len(w1), len(w2))+len(tail) > maxLen {
+							continue
+						}
+						rx := head + "(?:" + w1 + "|" + w2 + ")" + tail
+						if !seen[rx] {
+							seen[rx] = true
+							regexes = append(regexes, rx)
+							wordFamily++
+						}
+					}
+				}
+			}
+		}
+	}
 	strs := ref.Strings(alphabet, maxLen)
 	deadline := time.Now().Add(budget)
 	var evals, matches, spansChecked, done int64
@@ -89,7 +134,9 @@ func Run(tier string) int {
 		}
 		atomic.AddInt64(&matches, nm)
 		atomic.AddInt64(&spansChecked, sc)
-		if !hasAssert {
+		// a literal outside the string alphabet cannot be realised: containment is still judged on
+		// whatever matches, attainment is not
+		if !hasAssert && !strings.Contains(rx, `\x00`) {
 			// attainment: the alphabet can realise every assertion-free regex of the grammar
 			if al.MinLength <= uint(maxLen) && minSeen != int(al.MinLength) {
 				rep.Report(mc.Violation{Symptom: "length.min-not-attained", Key: rx,
@@ -130,6 +177,9 @@ func Run(tier string) int {
 	c["samples"] = samples
 	c["regexes"] = len(regexes)
 	c["regex_texts_rejected_by_parser"] = rejected
+	c["regexes_literal_words_in_context"] = wordFamily
+	c["regexes_tiny_grammar"] = tinyFamily
+	c["tiny_grammar_size"] = tinySize
 	c["spans_checked"] = spansChecked
 	c["matching_spans"] = matches
 	c["distinct_outcomes"] = len(outcomes)
